@@ -96,6 +96,7 @@ func (v *VM) Run() (err error) {
 
 func (v *VM) run() {
 	for atomic.LoadInt64(&v.aborting) == 0 {
+		verifProbe(v)
 		v.ip++
 
 		switch v.curInsts[v.ip] {
